@@ -79,6 +79,9 @@ func (controller *InfoController) GetTransactionInfo(writer http.ResponseWriter,
 	var walletBalance uint64
 	var values []uint64
 	for _, utxo := range utxos {
+		if utxo == nil {
+			continue
+		}
 		utxoValue := utxo.Value(nextBlockTimestamp, controller.settings.HalfLifeInNanoseconds(), controller.settings.IncomeBase(), controller.settings.IncomeLimit())
 		if utxoValue == 0 {
 			continue
